@@ -20,7 +20,9 @@ D_S = datetime.datetime(2021, 1, 2, 3, 4, 5)
 AUTHORS = [[], [("Jane Doe", None, None, None)], [("Jane Doe", "j@x.org", "+1 555", "DIT")], [(None, "only@mail.org", None, None)],
            [("A & <B>", None, None, "role \"q\"")], [("-", None, None, None)], [("-", "dash@x.org", None, None)],
            [("First", "f@x.org", None, None), ("Second ü", None, "123", "loader")], [("na\u2028me", None, None, None)],
-           [(" ", None, None, None)], [("\u3000", "blank@x.org", None, None)], [(" lead and trail ", None, None, " r ")]]
+           [(" ", None, None, None)], [("\u3000", "blank@x.org", None, None)], [(" lead and trail ", None, None, " r ")],
+           # characters beyond the Basic Multilingual Plane (a CJK Extension B surname, emoji)
+           [("\U00020BB7\u7530 \U0001F3AC", "y@x.org", "\U0001F4DE 555", "DIT \U0001F3A5")]]
 
 DEFAULT = {"path": "plain.txt", "size": 1234, "fmts": ["xxh64"], "action": "original", "hashdate": D_US, "prev": None,
            "dirpath": "some dir", "dirfmts": ["xxh64"], "roothash": ["xxh64"], "patterns": [".DS_Store", "ascmhl", "ascmhl/"],
@@ -38,11 +40,11 @@ ALTS = {
     "roothash": [None, ["md5"], ["xxh64", "c4"]],
     "patterns": [["*.tmp"], ["a b", "ü&<x>", "sub/"], ["#lead", "trail ", "back\\slash", "!neg", "a/**/b"], [".DS_Store", "ascmhl", "ascmhl/", "*.tmp", "x y/"], ["pat\u2028tern"]],
     "refs": [1, 2],
-    "host": ["host name", "hößt&<", "h\u2028ost"],
-    "tool": [("my tool", "0.1 beta"), ("t&<", "v\"1\"")],
+    "host": ["host name", "hößt&<", "h\u2028ost", "h\U0001F5A5st"],
+    "tool": [("my tool", "0.1 beta"), ("t&<", "v\"1\""), ("tool\U0001F527", "1\U0001F4A5")],
     "authors": AUTHORS[1:],
-    "location": ["Stage 5", "Zürich & <co>", "loc\u2028ation"],
-    "comment": ["a comment", "multi  space & <tags>", "com\u2029ment"],
+    "location": ["Stage 5", "Zürich & <co>", "loc\u2028ation", "Studio \U0001F3AC \U00020BB7"],
+    "comment": ["a comment", "multi  space & <tags>", "com\u2029ment", "take \U0001F44D"],
     "process": ["flatten", "transfer"],
     "extra_records": [1, 3],
 }
